@@ -35,6 +35,9 @@ def unsetBitD (d : Nat → Nat) (b : Nat) : Option (Nat → Nat) :=
   | some false => none
   | some true => some (upd d (3 - b / 8) (d (3 - b / 8) ^^^ 2 ^ (b % 8)))
 
+/-- the byte accessor of four given data bytes -/
+def acc4 (d0 d1 d2 d3 : Nat) : Nat → Nat := fun k => if k = 0 then d0 else if k = 1 then d1 else if k = 2 then d2 else d3
+
 /-- word-level wrappers used by the driver -/
 def isBitSet (w b : Nat) : Option Bool := isBitSetD (byteOf w) b
 def setBit (w b : Nat) : Option Nat := (setBitD (byteOf w) b).map word
